@@ -13,6 +13,8 @@ from .. import sysgen, oracles
 from . import c01
 
 GAMMA_MAX = 1e6
+UNDERFLOW = -745.0          # exp(x) == 0.0 in IEEE double for x < -745.13
+HNC_FINDING = 'unflagged_hnc_core_lost_when_gamma_exceeds_high_value_over_kT'
 EPS = np.finfo(float).eps
 
 
@@ -41,7 +43,9 @@ class World(c01.World):
             if np.any(np.abs(r_user - sig) < 1e-6):
                 ctx.probe('contact_point_on_grid')
 
-            def probe(r, gamma, _orig=orig, _sig=sig, _a=a, _b=b):
+            hnc_soft_core = (not pspec['closure']['hc']) and pspec['closure']['cls'] == 'HyperNettedChain'
+
+            def probe(r, gamma, _orig=orig, _sig=sig, _a=a, _b=b, _cl=cl, _hnc=hnc_soft_core):
                 g = np.array(gamma, dtype=float, copy=True)
                 c = _orig(r, gamma)
                 ctx.tick()
@@ -51,10 +55,22 @@ class World(c01.World):
                         ctx.probe('gamma_out_of_range')
                     else:
                         cc = np.asarray(c, dtype=float)
-                        dev = np.abs(cc[m] + g[m] + 1.0)
+                        with np.errstate(all='ignore'):
+                            dev = np.abs(cc[m] + g[m] + 1.0)
                         tol = 4 * EPS * np.maximum(1.0, np.abs(g[m]))
-                        if np.any(~(dev <= tol)):
-                            k = int(np.argmax(dev - tol))
+                        bad = ~(dev <= tol)
+                        if np.any(bad) and _hnc:
+                            # un-flagged HNC gets its core from exp(gamma - u) underflowing with u = high_value/kT: that cannot
+                            # happen once a trial gamma comes within ~745 of high_value/kT (seen with real scipy krylov on a
+                            # diverging iteration).  Reported under its own class (open known finding), everything else as usual.
+                            u = np.asarray(_cl.potential, dtype=float)[m]
+                            lost = bad & (g[m] - u > UNDERFLOW)
+                            if np.any(lost):
+                                k = int(np.argmax(lost))
+                                raise Violation(HNC_FINDING, 'closure.calculate', {
+                                    'pair': [_a, _b], 'r': float(np.asarray(r)[m][k]), 'gamma': float(g[m][k]), 'u_over_kT': float(u[k])})
+                        if np.any(bad):
+                            k = int(np.argmax(np.where(np.isfinite(dev), dev - tol, np.inf)))
                             raise Violation('closure_core_value_not_minus_one_minus_gamma', 'closure.calculate',
                                             {'pair': [_a, _b], 'r': float(np.asarray(r)[m][k]), 'c_plus_gamma': float(cc[m][k] + g[m][k]),
                                              'gamma': float(g[m][k])})
@@ -90,6 +106,15 @@ class World(c01.World):
                 dev = np.minimum(np.minimum(cand[0], cand[1]), cand[2])
                 tol = oracles.TOL * max(1.0, float(np.max(np.abs(c[:, p, q]))), float(np.max(np.abs(g[:, p, q]))), float(np.max(np.abs(g[:, q, p]))))
                 bad = mask & ~(dev <= tol)
+                pspec = spec['pairs'][sysgen.pkey(spec['types'][i], spec['types'][j])]
+                if np.any(bad) and (not pspec['closure']['hc']) and pspec['closure']['cls'] == 'HyperNettedChain':
+                    u = np.asarray(P.sys.closure[spec['types'][i], spec['types'][j]].potential, dtype=float)
+                    gmax = np.maximum(g[:, p, q], g[:, q, p])
+                    lost = bad & (gmax - u > UNDERFLOW)
+                    if np.any(lost):
+                        k = int(np.argmax(lost))
+                        raise Violation(HNC_FINDING, 'cost', {'pair': [spec['types'][p], spec['types'][q]], 'r': float(r_user[k]),
+                                                              'gamma': float(gmax[k]), 'u_over_kT': float(u[k])})
                 if np.any(bad):
                     k = int(np.argmax(np.where(bad, dev, -1)))
                     raise Violation('c_plus_gamma_not_minus_one_in_core', 'cost', {
